@@ -12,10 +12,48 @@ use std::time::Duration;
 
 use emit::{Emitter, Props};
 use vh_common::*;
-use vh_enc::cv::{Fw, Pool, CV};
+use vh_enc::cv::{Fw, Pool, Reent, CV};
 use vh_enc::expect::{match_any, match_json, strs, Tables};
 use vh_enc::json::{self, JV};
 use vh_enc::otlp::{self, Attrs, Collector, NNum, NRecord, NV};
+
+// the sinks under test are global so that a re-entrant value can reach the one that is
+// rendering it
+static FILE: std::sync::OnceLock<emit_file::FileSet> = std::sync::OnceLock::new();
+static OTLP_PROTO: std::sync::OnceLock<emit_otlp::Otlp> = std::sync::OnceLock::new();
+static OTLP_JSON: std::sync::OnceLock<emit_otlp::Otlp> = std::sync::OnceLock::new();
+static TERM_PLAIN: std::sync::OnceLock<emit_term::Stdout> = std::sync::OnceLock::new();
+static TERM_COLOR: std::sync::OnceLock<emit_term::Stdout> = std::sync::OnceLock::new();
+thread_local! {
+    /// which sink is rendering on this thread: 0 none, 1 file, 2 otlp protobuf, 3 otlp json, 4/5 term
+    static CUR: std::cell::Cell<u8> = const { std::cell::Cell::new(0) };
+}
+
+fn install_reent_hook() {
+    let _ = vh_enc::cv::REENT_HOOK.set(Box::new(|id| {
+        let cur = CUR.with(|c| c.get());
+        if cur == 0 {
+            return;
+        }
+        let evt = emit::Event::new(emit::Path::new_owned_raw(Reent::inner_mdl(id)), emit::Template::literal("inner event"), emit::Empty, ("n", id));
+        match cur {
+            1 => FILE.get().unwrap().emit(&evt),
+            2 => OTLP_PROTO.get().unwrap().emit(&evt),
+            3 => OTLP_JSON.get().unwrap().emit(&evt),
+            4 => TERM_PLAIN.get().unwrap().emit(&evt),
+            5 => TERM_COLOR.get().unwrap().emit(&evt),
+            _ => {}
+        }
+    }));
+}
+
+/// Emit through one sink with the re-entrancy target set; a panic is data.
+fn emit_to(cur: u8, f: impl FnOnce()) -> Result<(), String> {
+    CUR.with(|c| c.set(cur));
+    let r = catch(f);
+    CUR.with(|c| c.set(0));
+    r
+}
 
 struct Case {
     salt: u64,
@@ -104,7 +142,7 @@ fn case_json(c: &Case) -> Value {
 
 fn kinds_sig(c: &Case) -> String {
     // structural signature of an event: kind + shapes, without concrete values
-    let props: Vec<String> = c.spec["ev"]["props"].as_array().unwrap().iter().map(|p| format!("{}:{}", p["key"].as_str().unwrap(), strs(&p["shape"]).join("."))).collect();
+    let props: Vec<String> = c.spec["ev"]["props"].as_array().unwrap().iter().map(|p| format!("{}:{}", p["key"].as_str().unwrap().escape_debug(), strs(&p["shape"]).join("."))).collect();
     format!("{} [{}]", c.spec["ev"]["kind"].as_str().unwrap(), props.join(","))
 }
 
@@ -386,11 +424,12 @@ fn check_file(t: &Tables, c: &Case, msg: &str, tpl: &str, line: &str, out: &mut 
 fn term_child(cases: &str) {
     quiet_panics();
     let cs = load_cases(cases, 256);
-    let plain = emit_term::stdout().colored(false);
-    let colored = emit_term::stdout().colored(true);
+    install_reent_hook();
+    let plain = TERM_PLAIN.get_or_init(|| emit_term::stdout().colored(false));
+    let colored = TERM_COLOR.get_or_init(|| emit_term::stdout().colored(true));
     for c in &cs {
         println!("@@BEGIN {}", c.salt);
-        let r = catch(|| with_event(c, |evt| if c.salt % 2 == 0 { plain.emit(evt) } else { colored.emit(evt) }));
+        let r = with_event(c, |evt| if c.salt % 2 == 0 { emit_to(4, || plain.emit(evt)) } else { emit_to(5, || colored.emit(evt)) });
         match r {
             Ok(()) => println!("\n@@END {} ok", c.salt),
             Err(p) => println!("\n@@END {} panic {}", c.salt, p.replace('\n', " ")),
@@ -427,20 +466,21 @@ fn main() {
     let files_dir = format!("{outdir}/files");
     let _ = std::fs::remove_dir_all(&files_dir);
     std::fs::create_dir_all(&files_dir).unwrap();
-    let file = emit_file::set(format!("{files_dir}/ev.log")).spawn();
+    install_reent_hook();
+    let file = FILE.get_or_init(|| emit_file::set(format!("{files_dir}/ev.log")).spawn());
     let coll = Collector::start();
     let url = |p: &str| format!("http://127.0.0.1:{}/v1/{p}", coll.port);
     let tr = |p: &str| emit_otlp::http(url(p)).allow_compression(false);
-    let otlp_proto = emit_otlp::new()
+    let otlp_proto = OTLP_PROTO.get_or_init(|| emit_otlp::new()
         .logs(emit_otlp::logs_proto(tr("logs")))
         .traces(emit_otlp::traces_proto(tr("traces")))
         .metrics(emit_otlp::metrics_proto(tr("metrics")))
-        .spawn();
-    let otlp_json = emit_otlp::new()
+        .spawn());
+    let otlp_json = OTLP_JSON.get_or_init(|| emit_otlp::new()
         .logs(emit_otlp::logs_json(tr("logs")))
         .traces(emit_otlp::traces_json(tr("traces")))
         .metrics(emit_otlp::metrics_json(tr("metrics")))
-        .spawn();
+        .spawn());
 
     struct Run {
         msg: String,
@@ -452,7 +492,12 @@ fn main() {
     let mut json_recs: HashMap<String, Vec<NRecord>> = HashMap::new();
     let mut decode_errors: Vec<(String, String)> = Vec::new();
     let mut drain = |proto_recs: &mut HashMap<String, Vec<NRecord>>, json_recs: &mut HashMap<String, Vec<NRecord>>, decode_errors: &mut Vec<(String, String)>| {
-        if !otlp_proto.blocking_flush(Duration::from_secs(30)) || !otlp_json.blocking_flush(Duration::from_secs(30)) {
+        let tf = std::time::Instant::now();
+        let okp = otlp_proto.blocking_flush(Duration::from_secs(30));
+        let t1 = tf.elapsed();
+        let okj = otlp_json.blocking_flush(Duration::from_secs(30));
+        if std::env::var("VERIF_TIMING").is_ok() { eprintln!("flush proto {:?} json {:?}", t1, tf.elapsed() - t1); }
+        if !okp || !okj {
             tool_error("OTLP flush timed out against the loopback collector");
         }
         for req in coll.take() {
@@ -473,31 +518,35 @@ fn main() {
             }
         }
     };
+    let t0 = std::time::Instant::now();
+    let timing = std::env::var("VERIF_TIMING").is_ok();
     for (n, c) in cases.iter().enumerate() {
         let mut run = Run { msg: String::new(), tpl: String::new(), panics: vec![] };
         with_event(c, |evt| {
             run.msg = evt.msg().to_string();
             run.tpl = evt.tpl().to_string();
-            if let Err(p) = catch(|| file.emit(evt)) {
+            if let Err(p) = emit_to(1, || file.emit(evt)) {
                 run.panics.push(("file".into(), p));
             }
-            if let Err(p) = catch(|| otlp_proto.emit(evt)) {
+            if let Err(p) = emit_to(2, || otlp_proto.emit(evt)) {
                 run.panics.push(("otlp-proto".into(), p));
             }
-            if let Err(p) = catch(|| otlp_json.emit(evt)) {
+            if let Err(p) = emit_to(3, || otlp_json.emit(evt)) {
                 run.panics.push(("otlp-json".into(), p));
             }
             let _ = evt.props().get("a");
         });
         runs.push(run);
-        if n % 24 == 23 {
+        if n % 1024 == 1023 {
             drain(&mut proto_recs, &mut json_recs, &mut decode_errors);
         }
     }
     drain(&mut proto_recs, &mut json_recs, &mut decode_errors);
+    if timing { eprintln!("emitted+drained {:?}", t0.elapsed()); }
     if !file.blocking_flush(Duration::from_secs(60)) {
         tool_error("file flush timed out");
     }
+    if timing { eprintln!("file flushed {:?}", t0.elapsed()); }
 
     // file lines by module
     let mut lines: HashMap<String, Vec<String>> = HashMap::new();
@@ -521,6 +570,7 @@ fn main() {
 
     // terminal output
     let term_out = child.wait_with_output().unwrap_or_else(|e| tool_error(&format!("term child: {e}")));
+    if timing { eprintln!("term child done {:?}", t0.elapsed()); }
     let term_text = String::from_utf8_lossy(&term_out.stdout).to_string();
     let mut term: HashMap<u64, (String, String)> = HashMap::new();
     {
@@ -563,6 +613,31 @@ fn main() {
             }
             sinks_decided += 1;
         }
+        // events emitted by re-entrant values while the sink was rendering them are ordinary
+        // events: they must come out too
+        // (only first occurrences are rendered; the terminal renders the hole `a` only)
+        let mut rids = Vec::new();
+        let mut term_rids = Vec::new();
+        for (i, v) in c.cvs.iter().enumerate() {
+            if !c.keys[..i].contains(&c.keys[i]) {
+                v.reent_ids(&mut rids);
+                if c.keys[i] == "a" {
+                    v.reent_ids(&mut term_rids);
+                }
+            }
+        }
+        for id in &rids {
+            let im = Reent::inner_mdl(*id);
+            for (sink, present, skip) in [
+                ("file", lines.contains_key(&im), panicked("file")),
+                ("otlp-proto", proto_recs.contains_key(&im), panicked("otlp-proto")),
+                ("otlp-json", json_recs.contains_key(&im), panicked("otlp-json")),
+            ] {
+                if !skip && !present {
+                    out.push(mis("event emitted from inside a property value is lost", format!("reentrant-inner-lost sink={sink} ev={ks}"), json!({"sink": sink, "inner_module": im})));
+                }
+            }
+        }
         // (b) OTLP, both encodings, and the twins
         let empty_metric_seq = c.spec["otlp"]["sink"] == "metrics" && matches!(c.cvs[c.spec["otlp"]["value"].as_u64().unwrap() as usize - 1].strip_some(), CV::Seq(v) if v.is_empty());
         let mut pair: Vec<Option<&NRecord>> = vec![];
@@ -601,6 +676,8 @@ fn main() {
                     out.push(mis("panic on the emitting thread", format!("panic sink=term msg={} ev={ks}", st.chars().take(60).collect::<String>()), json!({"sink": "term", "panic": st})));
                 } else if !body.contains(&c.lit) {
                     out.push(mis("terminal output lacks the message text", format!("term-text ev={ks}"), json!({"want": c.lit, "got": body.chars().take(300).collect::<String>()})));
+                } else if !term_rids.is_empty() && !body.contains("inner event") {
+                    out.push(mis("event emitted from inside a property value is lost", format!("reentrant-inner-lost sink=term ev={ks}"), json!({"sink": "term", "got": body.chars().take(300).collect::<String>()})));
                 }
                 sinks_decided += 1;
             }
